@@ -129,9 +129,35 @@ pub fn run(ctx: &Ctx, sh: &mut Shard) {
         let mut r = Rng::derive(ctx.seed, ctx.shard, k);
         sh.cases += 1;
         let g = *r.pick(&[3i64, 4, 4, 5, 6, 8]);
-        let p = gen_any(&mut r, g);
+        // The sequential model is plain relate itself, so the workload need not stay inside C01's domain:
+        // one history in four prepares a MIXED-dimension collection (areal + lineal + puntal members, possibly
+        // far apart, possibly overlapping), and partners may be such collections too.
+        let mixed = |r: &mut Rng| -> IG {
+            let n = r.range(2, 4);
+            IG::Collection((0..n).map(|_| { let m = gen_any(r, g); let d = if r.chance(1, 2) { 0 } else { r.range(-2 * g, 2 * g) }; m.translate(d, r.range(-g, g)) }).collect())
+        };
+        let p = if k % 4 == 3 { mixed(&mut r) } else { gen_any(&mut r, g) };
         let npool = r.range(2, 8) as usize;
-        let pool: Vec<IG> = (0..npool).map(|_| partner(&mut r, &p, g)).collect();
+        let pool: Vec<IG> = (0..npool)
+            .map(|_| {
+                if r.chance(1, 8) {
+                    mixed(&mut r)
+                } else if r.chance(1, 6) {
+                    // a partner that meets P only near one of its coordinates, wherever that is
+                    let q = interesting_point(&mut r, &p, g);
+                    match r.below(3) {
+                        0 => IG::Point(q),
+                        1 => IG::LineString(vec![(q.0 - 2, q.1), (q.0 + 2, q.1)]),
+                        _ => IG::Line((q.0, q.1 - 1), (q.0, q.1 + 1)),
+                    }
+                } else {
+                    partner(&mut r, &p, g)
+                }
+            })
+            .collect();
+        if k % 4 == 3 {
+            sh.class("prepared:mixed_dimension_collection");
+        }
         let lat = Lat::random(&mut r);
         let nops = if ctx.tier == "thorough" && r.chance(1, 10) { r.range(100, 300) } else { r.range(10, 60) } as usize;
         let ops: Vec<Op> = (0..nops)
